@@ -182,16 +182,20 @@ def is_iter(v):
     return isinstance(v, ListV) and (getattr(v, 'is_iterator', False) or getattr(v, 'is_generator', False))
 
 
+def check_sources(v):
+    """a generator over a file runs when it is consumed: if the file has been closed by then, reading it raises"""
+    srcs = getattr(v, 'sources', None)
+    if srcs and any(s_.attrs.get('__closed__') for s_ in srcs) and (v.items or not getattr(v, 'touched', False)):
+        raise _RaisedExc(Raised('ValueError'))              # I/O operation on closed file
+    if is_iter(v):
+        v.touched = True
+
+
 def take(v, n=None):
     """the next n (default: all remaining) items of a ListV; an iterator loses them"""
     if getattr(v, 'tainted', False):
         raise Unsupported('an iterator whose position is not known (it was partly consumed through a generator)')
-    srcs = getattr(v, 'sources', None)
-    if srcs and any(s_.attrs.get('__closed__') for s_ in srcs) and (v.items or not getattr(v, 'touched', False)):
-        # a generator over a file runs when it is consumed: by then the file is closed
-        raise _RaisedExc(Raised('ValueError'))              # I/O operation on closed file
-    if is_iter(v):
-        v.touched = True
+    check_sources(v)
     items = list(v.items) if n is None else list(v.items[:n])
     if is_iter(v):
         del v.items[:len(items)]
@@ -1896,7 +1900,7 @@ class Interp:
                     return r
             if op in ('<', '<=', '>', '>=', '==', '!=') and not diff.f and diff.n.is_monomial() and diff.atoms() and \
                     all(a_ in SURELY_POSITIVE or a_.startswith('U<') or a_ in self.positive_syms or
-                        a_ in self.D.positive for a_ in diff.atoms()):
+                        self.D.kind.get(a_) in ('exp', 'const') for a_ in diff.atoms()):
                 # a product of quantities that are positive (temperatures, constants, what the rule declared so)
                 (coef_,) = diff.n.t.values()
                 pos_ = coef_ > 0
@@ -2537,6 +2541,8 @@ class Frame:
                 raise _RaisedExc(Raised('ValueError', st))          # I/O operation on closed file
             it = it.attrs['__lines__']          # the lines not yet handed out; a break leaves the rest in the file
         lazy = is_iter(it)
+        if lazy:
+            check_sources(it)
         sized = it.d if isinstance(it, DictV) else it.items if isinstance(it, ListV) and getattr(it, 'is_set', False) \
             else None
         n0 = len(sized) if sized is not None else None
@@ -4643,6 +4649,7 @@ def builtin_call(I, fr, name, args, kwargs, n):
                 raise _RaisedExc(Raised('ValueError', n))
             it_ = it_.attrs['__lines__']
         if isinstance(it_, ListV) and (getattr(it_, 'is_iterator', False) or getattr(it_, 'is_generator', False)):
+            check_sources(it_)
             if getattr(it_, 'drains_other', None) is not None and len(it_.items) > 1:
                 it_.drains_other.tainted = True
             if it_.items:
